@@ -196,6 +196,14 @@ def _mk_exceptions():
         "StopIteration": ["Exception"], "TypeError": ["Exception"], "ValueError": ["Exception"],
         "Warning": ["Exception"], "UserWarning": ["Warning"], "DeprecationWarning": ["Warning"],
         "RuntimeWarning": ["Warning"], "KeyboardInterrupt": ["BaseException"],
+        "SyntaxError": ["Exception"], "IndentationError": ["SyntaxError"], "PermissionError": ["OSError"],
+        "IsADirectoryError": ["OSError"], "NotADirectoryError": ["OSError"], "FileExistsError": ["OSError"],
+        "TimeoutError": ["OSError"], "EOFError": ["Exception"], "MemoryError": ["Exception"],
+        "OverflowError": ["ArithmeticError"], "FloatingPointError": ["ArithmeticError"],
+        "RecursionError": ["RuntimeError"], "UnicodeError": ["ValueError"], "UnicodeDecodeError": ["UnicodeError"],
+        "UnicodeEncodeError": ["UnicodeError"], "BufferError": ["Exception"], "SystemExit": ["BaseException"],
+        "GeneratorExit": ["BaseException"], "FutureWarning": ["Warning"], "PendingDeprecationWarning": ["Warning"],
+        "ResourceWarning": ["Warning"], "ImportWarning": ["Warning"], "SyntaxWarning": ["Warning"],
     }
     out = {}
     for n, bases in names.items():
@@ -1303,13 +1311,15 @@ class Interp:
             x = self.eval(node.values[0].value, env, mod)
             if isinstance(x, (SReal, SInt, SBool, Fraction)) or (isinstance(x, (int, float)) and not isinstance(x, bool)):
                 return self.call(self.builtins["str"], [x], {})
-        parts = []
+        parts, vals = [], []
         sym = False
         for v in node.values:
             if isinstance(v, ast.Constant):
                 parts.append(str(v.value))
+                vals.append(None)
             else:
                 x = self.eval(v.value, env, mod)
+                vals.append(x)
                 if isinstance(x, str):
                     parts.append(x)
                 elif isinstance(x, (int, bool)) and not isinstance(x, Sym):
@@ -1317,6 +1327,17 @@ class Interp:
                 else:
                     sym = True
         if sym:
+            # f"...{a}...{b}" is "...{}...{}".format(a, b): one library model (and one place for contracts to hook
+            # into) for both spellings
+            if all(isinstance(v, ast.Constant) or (v.format_spec is None and v.conversion == -1) for v in node.values):
+                tmpl, args = "", []
+                for v, x in zip(node.values, vals):
+                    if isinstance(v, ast.Constant):
+                        tmpl += str(v.value).replace("{", "{{").replace("}", "}}")
+                    else:
+                        tmpl += "{}"
+                        args.append(x)
+                return self.lib["str.format"](self, tmpl, *args)
             return Opaque("formatted-string")
         return "".join(parts)
 
@@ -1678,6 +1699,13 @@ class Interp:
         m = _lib.method_of(self, obj, name)
         if m is not None:
             return m
+        if isinstance(obj, Builtin) and obj is self.builtins.get("dict") and name == "fromkeys":
+            def fromkeys(I, keys, value=None):
+                d = SDict()
+                for k in _lib._plain(I.iterate(keys)):
+                    _lib.dict_setitem(I, d, k, value)
+                return d
+            return Builtin("dict.fromkeys", fromkeys)
         if obj is None or isinstance(obj, (bool, int, Fraction)):
             self.raise_py("AttributeError", f"{type(obj).__name__} object has no attribute {name}")
         raise Unsupported(f"attribute {name} of {obj!r}")
